@@ -668,7 +668,7 @@ fn source_strategy(db: bool, max_ops: usize, attach_weight: f64) -> impl Strateg
             let mut ops = prefix;
             ops.extend(history.ops);
             history.ops = ops;
-            Source { history, extra, attach: attach.map(|(folder, len, seed)| FileSpec { folder, len, seed }) }
+            Source { history, extra, attach: attach.map(|(folder, len, seed)| FileSpec { folder, len, seed, boundary: 0 }) }
         })
 }
 
